@@ -58,7 +58,7 @@ func runC12(c *fw.Ctx) {
 			k[0] = byte(i*0x80) | k[0]&0x0f
 		}
 		v, w := g.Value()
-		if err := src.Update(k, v, w); err != nil {
+		if err := wl.Upd(src, k, v, w); err != nil {
 			c.Violate("", "Update failed: %v", err)
 			return
 		}
@@ -89,7 +89,7 @@ func runC12(c *fw.Ctx) {
 						v, w = g.SameWeightValue(m[k].W), m[k].W
 					}
 					c.Tracef("live trie behind the view: upd %s=%s", wl.KeyStr([]byte(k)), v)
-					_ = live.Update([]byte(k), v, w)
+					_ = wl.Upd(live, []byte(k), v, w)
 				}
 				c.Count("views_whose_origin_moved_on", 1)
 			}
@@ -169,15 +169,15 @@ func runC12(c *fw.Ctx) {
 		if r.Intn(3) != 0 {
 			v, w := g.Value()
 			c.Tracef("upd %s=%s", wl.KeyStr(k), v)
-			e1 = src.Update(k, v, w)
-			e2 = part.Update(k, v, w)
+			e1 = wl.Upd(src, k, v, w)
+			e2 = wl.Upd(part, k, v, w)
 			if e1 == nil {
 				m[string(k)] = wl.Entry{Val: v, W: w}
 			}
 		} else {
 			c.Tracef("del %s", wl.KeyStr(k))
-			e1 = src.Update(k, nil, 0)
-			e2 = part.Update(k, nil, 0)
+			e1 = wl.Upd(src, k, nil, 0)
+			e2 = wl.Upd(part, k, nil, 0)
 			if e1 == nil {
 				delete(m, string(k))
 			}
@@ -212,7 +212,7 @@ func c12huge(c *fw.Ctx) {
 		r.Read(k)
 		v := []byte(fmt.Sprintf("h%d", i))
 		w := wl.WeightOf(v)
-		if err := src.Update(k, v, w); err != nil {
+		if err := wl.Upd(src, k, v, w); err != nil {
 			c.Violate("", "Update failed: %v", err)
 			return
 		}
@@ -236,7 +236,7 @@ func c12huge(c *fw.Ctx) {
 		return
 	}
 	k := keys[r.Intn(len(keys))]
-	e1, e2 := src.Update(k, []byte("changed"), wl.WeightOf([]byte("changed"))), part.Update(k, []byte("changed"), wl.WeightOf([]byte("changed")))
+	e1, e2 := wl.Upd(src, k, []byte("changed"), wl.WeightOf([]byte("changed"))), wl.Upd(part, k, []byte("changed"), wl.WeightOf([]byte("changed")))
 	if e1 != nil || e2 != nil || !bytes.Equal(src.Root(), part.Root()) {
 		c.Violate("", "huge export: mirrored update diverges (%v / %v)", e1, e2)
 		return
